@@ -15,6 +15,9 @@ def tasks(run):
     for i in range(6 if run.tier == 'quick' else 24):
         hist = [(rng.choice(names), rng.randrange(1000), rng.choice(['build', 'abandon', 'build'])) for _ in range(rng.choice([2, 3, 4]))]
         out.append(('history', ('T_composite', 2 + 3 * i, hist)))
+    # an earlier model solved with explicit, crude solver options: the options of one solve are not those of the next
+    out += [('history', (n_, 40 + i, [(rng.choice(names), rng.randrange(1000), 'solve_crude'), (rng.choice(names), rng.randrange(1000), 'build')]))
+            for i, n_ in enumerate(('T_gd_ssc', 'T_prox_convex', 'T_metrics'))]
     out += [('verbosity', (names[i], 7)) for i in range(0, len(names), 3)]
     out += [('verbosity', ('T_gd_ssc', 5, 'logdet2')), ('verbosity', ('T_metrics', 6, 'logdet3'))]      # the reweighting loop of the heuristic at every verbosity
     out += [('fresh_process', ('T_gd_ssc', 3, 'objects')), ('fresh_process', ('T_blocks', 4, 'objects')), ('fresh_process', ('T_quadratic', 5, 'model'))]
